@@ -207,7 +207,7 @@ def run_case(seed):
     def count(k):
         dist[k] = dist.get(k, 0) + 1
 
-    pf = gen.gen_plotfile(rng, allow_repeat=True, max_blocks=2, payload=rng.choice(['ints', 'random']), awkward=0.3, odd0=0.25)
+    pf = gen.gen_plotfile(rng, allow_repeat=True, max_blocks=2, payload=rng.choice(['ints', 'random']), awkward=0.3, odd0=0.25, odd_names=0.25)
     extra_ratio = rng.choice([0, 0, 1, 2])
     path = core.scratch_dir(f"c02_{seed}")
     htext, ctexts = write_from_model(pf, path, model, rng, extra_ratio)
